@@ -41,8 +41,19 @@ def parseMsg (a : List String) : Option MsgInfo :=
       | "empty" => some (0, D.junk) | "short" => some (31, D.junk) | _ => none)
     let vk : K := if km = "vklen" then K.kvkT kj else K.kvk kj
     let vkLen := if km = "vklen" then 31 else 32
+    -- "…HiNN": the message carries counter / period + 2^NN, the cold signature is the one over the
+    -- genuine values (a change in the high bits only)
+    let bumpOf : String → Nat := fun m =>
+      if m.endsWith "Hi32" then 2 ^ 32 else if m.endsWith "Hi40" then 2 ^ 40
+      else if m.endsWith "Hi63" then 2 ^ 63 else 0
+    let isHi := cm.startsWith "issueHi" ∨ cm.startsWith "periodHi"
+    let msgIssue := if cm.startsWith "issueHi" then issue + bumpOf cm else issue
+    let msgOcp := if cm.startsWith "periodHi" then ocp + bumpOf cm else ocp
+    if isHi ∧ (bumpOf cm = 0 ∨ msgIssue ≥ 2 ^ 64 ∨ msgOcp ≥ 2 ^ 64) then none else
     let csig ← (match cm with
       | "ok" | "short" | "cklen" => some (S.csig ci vk issue ocp)
+      | "issueHi32" | "issueHi40" | "issueHi63" | "periodHi32" | "periodHi40" | "periodHi63" =>
+        some (S.csig ci vk issue ocp)
       | "junk" => some S.junk
       | "other" => some (S.csig ((ci + 1) % 4) vk issue ocp)
       | "issue" => some (S.csig ci vk (issue + 1) ocp)
@@ -61,7 +72,7 @@ def parseMsg (a : List String) : Option MsgInfo :=
     let ksLen := if km = "short" then 447 else 448
     let m : Msg Pay D K S KS :=
       { idLen, id, payload := pay, kesSig := ks, kesSigLen := ksLen, kesVk := vk, kesVkLen := vkLen,
-        issue, ocPeriod := ocp, coldSig := csig, coldSigLen := csigLen, coldKey := ck, coldKeyLen := ckLen }
+        issue := msgIssue, ocPeriod := msgOcp, coldSig := csig, coldSigLen := csigLen, coldKey := ck, coldKeyLen := ckLen }
     pure { msg := m, slot, cold := ci,
            kesGenuine := km == "ok",
            certGenuine := cm == "ok",
